@@ -241,7 +241,7 @@ loop:
 		case opPop:
 			_, err = d.pop()
 		case opPopMark:
-			d.popMark()
+			err = d.popMark()
 		case opDup:
 			err = d.dup()
 		case opFloat:
